@@ -939,6 +939,72 @@ class Intrinsics:
             return f.info.qualname
         return None
 
+    # FPy dialect vocabulary (pyvc/fpydialect.py)
+    def _fpy(self, P):
+        if not hasattr(P, 'fpy_round'):
+            raise InterpError("fpy_* spec functions need a contract with options = {'dialect': 'fpy'}")
+        return P
+
+    def s_fpy_val(self, P, x):
+        return x
+
+    def s_fpy_rnd(self, P, ctx, v):
+        P = self._fpy(P)
+        return P.fpy_round(P.ctx_of(ctx), v)
+
+    def s_fpy_rne(self, P, v, digits):
+        from .fpydialect import rne_fix, rne_frac, to_fix
+        if not isinstance(digits, int):
+            raise InterpError('fpy_rne needs a concrete number of digits')
+        if isinstance(v, (int, Fraction)) and not is_z3(v):
+            return rne_frac(Fraction(v), digits)
+        return rne_fix(to_fix(v), digits)
+
+    def s_fpy_finite(self, P, ctx, v):
+        return True
+
+    def s_fpy_operand(self, P, m, e):
+        return self._fpy(P).fpy_operand(m, e)
+
+    def s_fpy_pow2(self, P, n):
+        from .fpydialect import fpy_pow
+        if isinstance(n, (int, Fraction)) and not is_z3(n):
+            return Fraction(2) ** int(Fraction(n))
+        return fpy_pow(z3.RealVal(2), as_z3real(n))
+
+    def s_fpy_is_int(self, P, v):
+        if isinstance(v, (int, Fraction)) and not is_z3(v):
+            return Fraction(v).denominator == 1
+        # the same term the dialect builds for `modf(v)[1] == 0` (integral part by truncation)
+        x = as_z3real(v)
+        ip = simp(z3.If(x >= 0, z3.ToReal(z3.ToInt(x)), -z3.ToReal(z3.ToInt(-x))))
+        return simp(simp(x - ip) == z3.RealVal(0))
+
+    def s_abstract_int(self, P, name, native_fn, *args):
+        return self.s_abstract(P, name, native_fn, *args, _sort=z3.IntSort())
+
+    def s_abstract(self, P, name, native_fn, *args, _sort=None):
+        """uninterpreted Bool predicate (C20: behaviour of an arbitrary Context); objects count by identity"""
+        zs = []
+        sig = []
+        for a in args:
+            if isinstance(a, SObj):
+                zs.append(z3.Int('obj#' + (a.name or hex(id(a)))))
+                sig.append('o')
+            elif is_boollike(a):
+                zs.append(as_z3bool(a))
+                sig.append('b')
+            elif is_intlike(a):
+                zs.append(as_z3int(a))
+                sig.append('i')
+            elif a is None:
+                zs.append(z3.IntVal(-1))
+                sig.append('n')
+            else:
+                raise InterpError(f'abstract({name}): unsupported argument {a!r}')
+        f = z3.Function(f'abs_{name}_{"".join(sig)}', *([z.sort() for z in zs] + [z3.BoolSort() if _sort is None else _sort]))
+        return f(*zs)
+
     def s_implies(self, P, a, b):
         a, b = P.truthy(a), P.truthy(b)
         if a is False or b is True:
